@@ -67,6 +67,8 @@ impl Args {
 }
 
 /// A set of output files, one per worker, plus shared counters.
+pub static HARNESS_FAILURES: AtomicUsize = AtomicUsize::new(0);
+
 pub struct Output {
     pub dir: PathBuf,
     pub stats: Mutex<BTreeMap<String, u64>>,
@@ -92,6 +94,10 @@ impl Output {
         }
     }
     pub fn finish(&self, extra: Value) {
+        let failures = HARNESS_FAILURES.load(Ordering::SeqCst) as u64;
+        if failures > 0 {
+            self.add("harness_failures", failures);
+        }
         let stats = self.stats.lock().unwrap().clone();
         let samples = self.samples.lock().unwrap().clone();
         let value = json!({"stats": stats, "samples": samples, "extra": extra});
@@ -128,7 +134,14 @@ where
                         if job >= n_jobs {
                             break;
                         }
-                        work(job, &mut file);
+                        // a panic of the harness's own modelling (not of the library: that is caught
+                        // where it is called) on one script must not hide what the other scripts
+                        // show: it is counted, reported in stats.json and turned into a tool error
+                        // by bin/check unless a violation was found anyway
+                        let outcome = std::panic::catch_unwind(std::panic::AssertUnwindSafe(|| work(job, &mut file)));
+                        if outcome.is_err() {
+                            HARNESS_FAILURES.fetch_add(1, Ordering::SeqCst);
+                        }
                     }
                     file.flush().unwrap();
                 })
